@@ -1968,3 +1968,7 @@ mod tests {
         }
     }
 }
+
+#[cfg(kani)]
+#[path = "/verif/units/kani/core_multi_proof.rs"]
+mod verif_kani;
